@@ -70,7 +70,37 @@ claim("C16", "abstract evaluation of the CIGAR walkers per op and block state ag
       "position. Block boundaries for every CIGAR string are not decided.",
       "DESIGN.md 3/C16 (Q1-Q2)")
 
-for _p in ["C03", "C04", "C05", "C06", "C07", "C08", "C10", "C14"]:
+claim("C03", "guard-dominance (must-pass-through) on the print gate, who-constructs check, call-site guard check for in-place mutators",
+      "Decides: a model reaches transcript_models/extended GTF only after validate_exons passed (registry of validated indices is the "
+      "only route to a write; nothing else writes the handle); `known` models are created only by the copy constructor from the "
+      "annotation's own exons/strand/gene/id; the extended storage adds every reference isoform and every dumped novel model "
+      "unfiltered; every in-place mutation of exon_blocks/strand is control-dependent on transcript_type != known locally or at all "
+      "call sites. Sortedness/bounds of novel exons and uniqueness are value-level and not decided.",
+      "DESIGN.md 3/C03 (G1-G3)")
+
+claim("C04", "branch pairing + recognised subset-test idioms + single-definition check; path enumeration of filter loops (drop => forget)",
+      "Decides: .nic/novel_in_catalog is assigned exactly in the positive branch of an 'every intron of the model's own path is in "
+      "known_introns' test, known_introns being only set(annotation introns); .nnic otherwise and for mono-exon novel models; on "
+      "every path of both filter passes a model is either kept or passed to delete_from_storage, which removes the read list that "
+      "transcript_model_reads is printed from. Intron support, strand definiteness and chain uniqueness are not decided.",
+      "DESIGN.md 3/C04 (N1-N2)")
+
+claim("C08", "predicate-derived priority classes, path enumeration of the loading gate, guard dominance in evidence loops, sibling constructor agreement",
+      "Decides: the return chain of select_best_assignment is a linear extension of the documented priority order (classes derived "
+      "from the guards of each list); every resolution branch marks losers suspended in the field the single stage-2 loading gate "
+      "tests, and the gate forwards a multimapper only if resolved and not suspended; graph-evidence loops skip multimappers before "
+      "any state write; the high-memory and default constructors of the compact record define the same fields from the same "
+      "sources. Order-independence of tie-breaking is not decided.",
+      "DESIGN.md 3/C08 (M1-M4)")
+
+claim("C14", "origin taint + control dependence on strategy flags (with two re-verified data-carried guard idioms); linear normal forms for BED12",
+      "Decides: every statement through which an annotation-origin coordinate or a changed read region reaches the corrected "
+      "alignment is dominated by a correct_* flag (so preset none, all False, yields the input alignment); corrected sites are the "
+      "read's or the same-index annotated intron's site of the same side; left/right events change only their end; BED12 columns "
+      "satisfy chromStart=E0-1, chromEnd=Elast, size=e1-e0+1, start=e0-E0, count=len. Block ordering/positivity is not decided.",
+      "DESIGN.md 3/C14 (B1-B3)")
+
+for _p in ["C05", "C06", "C07", "C10"]:
     na(_p, NOT_BUILT)
 
 na("C12", "equality of outputs across .gtf/.gtf.gz/.db, --complete_genedb and BAM partitions is determined by what gffutils "
